@@ -282,6 +282,8 @@ class Gen:
             mn, mx = alt.node.get("minLength"), alt.node.get("maxLength")
             if mx == 1:
                 return "str", ch.choice(["a", "&", "x", "|", " ", "é", "#"] if not p.forbid else ["a", "&", "x", "|", " "])
+            if k == "expression" and slot.alts[0].ref == "expression.json" and ch.chance(1, 6):
+                return "listx", ch.choice(LISTX)   # list expression {a,b,c}: unquoted, kept verbatim
             if k == "symbol" and ch.chance(1, 2):
                 return "str", ch.choice(strings.WORDS)  # symbol names: usually plain (bare-able) words
             s, _ = self.string(multi_alt=multi)
